@@ -282,6 +282,16 @@ def prepare(formulas):
 
 
 def _invalid_model(model, fs):
+    # only z3's sequence/string solver has been seen to return assignments that falsify an assertion; models of
+    # problems without sequence sorts are taken as they are (evaluating array lambdas can mislead the check)
+    seq = False
+    for d in model.decls():
+        srts = [d.range()] + [d.domain(i) for i in range(d.arity())]
+        if any(s.kind() == z3.Z3_SEQ_SORT for s in srts):
+            seq = True
+            break
+    if not seq:
+        return None
     for f in fs:
         try:
             v = model.eval(f, model_completion=True)
